@@ -30,8 +30,9 @@ def pyodbc_classifier(exc: BaseException) -> ErrorClass:
     sqlstate = getattr(exc, "sqlstate", None) or _extract_sqlstate(getattr(exc, "args", ()))
     try:
         code = str(sqlstate) if sqlstate is not None else None
-    except ValueError:
-        # e.g. an int beyond the interpreter's str() digit limit: not a SQLSTATE
+    except (ValueError, RecursionError):
+        # e.g. an int beyond the interpreter's str() digit limit, or a container nested
+        # deeper than the recursion limit: not a SQLSTATE
         code = None
 
     if code is not None:
